@@ -14,6 +14,8 @@ struct wrap_state {
   size_t short_n;     /* ... to this many bytes */
   long shrink_at;   /* oracle shrink k n: just before call k (a sendfile) the source file is truncated to n bytes */
   size_t shrink_n;
+  long grow_at;     /* oracle grow k n: just before call k (a sendfile) n bytes are appended to the source file */
+  size_t grow_n;
   size_t short_all; /* oracle shortall n: every write / sendfile of the operation moves at most n bytes */
   size_t chunk;       /* if non-zero: every sendfile moves at most chunk bytes */
   long alloc_fail_at; /* fail allocation with this index */
